@@ -198,6 +198,19 @@ def _exec(case):
             except Exception:  # noqa: BLE001  numpy rejects: out of scope
                 return "skip", "numpy rejects"
             api = case.get("api", "einsum")
+            if case["form"] == "interleaved" and api == "einsum":
+                # contract on convert_from_interleaved: the equation it returns means the same to numpy
+                from cotengra.utils import convert_from_interleaved
+
+                try:
+                    ceq, carr = convert_from_interleaved(args)
+                    if len(carr) != len(arrays) or any(x is not y for x, y in zip(carr, arrays)):
+                        return "fail", "convert_from_interleaved does not return the operands in order"
+                    ok, msg = _same(np.einsum(ceq, *carr), ref)
+                    if not ok:
+                        return "fail", f"convert_from_interleaved gives {ceq!r}, not equivalent: {msg}"
+                except Exception as e:  # noqa: BLE001
+                    return "fail", f"convert_from_interleaved raised {type(e).__name__}: {str(e)[:120]}"
             try:
                 if api == "einsum":
                     got = ctg.einsum(*args)
@@ -239,6 +252,14 @@ def _exec(case):
                 return "skip", "numpy rejects"
             try:
                 msg = _check_parse(case["eq"], case["shapes"])
+                lhs = case["eq"].split("->")[0]
+                if msg is None and "." not in lhs:
+                    from cotengra.utils import find_output_str
+
+                    flat = lhs.replace(",", "")
+                    want = "".join(ch for ch in sorted(set(flat)) if flat.count(ch) == 1)
+                    if find_output_str(lhs) != want:
+                        msg = f"find_output_str({lhs!r}) = {find_output_str(lhs)!r}, reference {want!r}"
             except Exception as e:  # noqa: BLE001
                 return "fail", f"parse_equation_ellipses raised {type(e).__name__}: {str(e)[:160]}"
             return ("ok", "") if msg is None else ("fail", msg)
@@ -656,6 +677,16 @@ def run_bounded(rep: Report, tier: str) -> None:
          "47 x 47 operand terms x ellipsis ranks 0..2 per operand x every output (implicit / explicit / with '...'); "
          f"interleaved form on every implicit-output case (both label maps) and on 1/{inter_every} of explicit ones; "
          f"einsum_tree / cache_expression=False / einsum_expression(+constants) on 1/{api_every} of the cases", chunk=6)
+    if not quick:
+        T3 = grammar_terms("abc", 3)
+        part("G1b: 1 operand, rank <= 3, grammar-exhaustive", _work_grammar, [((t,), 1, 1) for t in T3], True,
+             "symbols {a,b,c}, <= 3 named indices, '...' anywhere (rank 0..2), every output; every API on every case", chunk=1)
+        T4 = grammar_terms("abcd", 3)
+        pairs = [(rng.choice(T4), rng.choice(T4)) for _ in range(500)]
+        part("G2b: 2 operands over {a,b,c,d} rank <= 3: 500 sampled term pairs x all outputs x all ellipsis ranks", _work_grammar,
+             [(pr, 4, 8) for pr in pairs], False,
+             "500 seeded pairs of operand terms (<= 3 named indices over 4 symbols, '...' anywhere); for each: every ellipsis "
+             "rank 0..2 per operand and every implicit/explicit output", chunk=1)
     n3, n4 = (2500, 1500) if quick else (60000, 40000)
     per = 125
     items = [(3, per, rng.randrange(2**30)) for _ in range(n3 // per)]
